@@ -2,8 +2,16 @@ import Tahoe.Crypto.Lemmas
 import Tahoe.Crypto.UseLemmas
 import Tahoe.Crypto.ObjectsLemmas
 import Tahoe.Base.Sha256Lemmas
-/-! C17 — key and secret derivations match the specification (property theorems only; helper lemmas in
-    `Tahoe/Crypto/Lemmas.lean`, `Tahoe/Crypto/UseLemmas.lean`, `Tahoe/Base/NetstringEnc.lean`, `Tahoe/Base/Sha256.lean`).
+/-! C17 — key and secret derivations match the specification (property theorems only; 89 theorems).
+
+    As built.  Models: `Tahoe/Crypto/Derive.lean` (every hashutil derivation, cap-class and lease chains, the catalogue
+    `Deriv` for domain separation), `Tahoe/Crypto/Use.lean` (secrets at the point of use: uploader tracker table,
+    checker / servermap add-lease, publish writers, announcement → seeds), `Tahoe/Crypto/Objects.lean`
+    (`MutableFileNode` / `Checker` as machines over call histories), on `Tahoe/Base/Sha256.lean` and
+    `Tahoe/Base/NetstringEnc.lean`.  Helper lemmas: `Tahoe/Crypto/Lemmas.lean`, `UseLemmas.lean`, `ObjectsLemmas.lean`,
+    `Tahoe/Base/Sha256Lemmas.lean`.  Driver `Drv/C17.lean`, harness `harness/props/c17.py` (fixed corpus for the seeded
+    changes C17-a…e first; `VERIF_CORPUS_ONLY=1`).  No `_partial` theorem, no known finding, no fix diff for C17.
+    Still an assumption / correspondence only: see the last rows of the table below.
 
     Every tag string and truncation length below is written as a *literal* copied from the
     documentation (docs/specifications/lease.rst, file-encoding.rst, mutable.rst, uri.rst, dirnodes.rst)
